@@ -13,7 +13,7 @@ RULE = ("every frequency-of-frequency vector of the bound (as list and ndarray) 
         "missing values; non-trivial = f2>0 (richness) / non-empty intersection (overlap)")
 ASSUMPTIONS = ["float results compared with the exact rational closed form to 1e-12 relative",
                "jaccard_index: missing values only inside Series (documented behaviour); ratio forms only where both element sets are non-empty after removal"]
-REQUIRED_CLASSES = {"all": ["f2-zero", "f2-positive", "length-1-vector", "set-container", "series-with-missing", "duplicates", "large-counts", "categorical-with-unused-categories", "tuple-elements", "dict-or-index-container", "string-as-collection", "large-integers-vs-floats", "nullable-integer-series"]}
+REQUIRED_CLASSES = {"all": ["f2-zero", "f2-positive", "length-1-vector", "set-container", "series-with-missing", "duplicates", "large-counts", "categorical-with-unused-categories", "tuple-elements", "dict-or-index-container", "string-as-collection", "large-integers-vs-floats", "nullable-integer-series", "exotic-missing-values-and-empty-string"]}
 MIN_OUTCOMES = 8
 NAN = float("nan")
 ELEMS = ("a", "b", "c", None, NAN)
@@ -48,6 +48,9 @@ def spaces(tier):
         for A in ("", "a", "ab", "aab", "abc", "cab"):
             yield ("strings", A)
 
+    def gen_exotic():
+        yield ("exotic",)
+
     def gen_ov():
         idx = range(len(ELEMS))
         lists = [t for n in range(0, 4) for t in itertools.product(idx, repeat=n)]
@@ -59,6 +62,7 @@ def spaces(tier):
         Space("magnitude-boundary-family", gen_mag, "f1 in {2^8-1, 2^8, 55108, 55109, 2^16-1, 2^16, 2^21+1, 2^31-1} x f2 in {0, 1, 3, 1000, 2^16, 2^21+1}, as list and as int64 ndarray (int64 powers of such counts overflow)"),
         Space("tuple-valued-elements", gen_tuples, "collections of 0..2 elements from {(a,b), (None,b), (a,), (a,b,c), None, (NaN,x)} against each other in list/set/tuple/Series containers (overlap, overlap_coefficient)"),
         Space("large-integers-and-floats", gen_bigint, "collections of 1..3 elements from {2^53+1, 2.0^53, 7, 7.0, True} against each other (equality is Python equality: 7 == 7.0, 2^53+1 != 2.0^53, True == 1) as list / Series"),
+        Space("exotic-missing-values", gen_exotic, "float32/float16 NaN, NaT, datetime64 NaT, pd.NA, Decimal NaN inside lists / tuples / object Series; the empty string as an element in 5 x 2 container pairs", per_case=True),
         Space("strings-as-collections", gen_strings, "6 x 7 pairs of short strings (iterables of characters) as str / list / tuple"),
         Space("collection-pairs", gen_ov, "A, B in all lists of length 0..3 over {a,b,c,None,NaN} (156 x 156 pairs; one case = one A against every B) x {list, tuple, set, Series}; also with numeric elements"),
     ]
@@ -126,6 +130,8 @@ def check_case(case, acc):
             acc.fail("%s/replay" % fn, case, exp, r)
         else:
             acc.ok()
+    elif kind == "exotic":
+        _check_exotic(acc)
     elif kind == "ovrow":
         a = case[1]
         idx = range(len(ELEMS))
@@ -234,6 +240,36 @@ def _box(idxs, cont, numeric):
         # a categorical column after filtering: categories that no longer occur are still listed
         return pd.Series(pd.Categorical(vals, categories=sorted({v for v in vals if isinstance(v, (str, int))} | ({"zz", "a"} if not numeric else {77, 1}))))
     raise HarnessError(cont)
+
+
+def _check_exotic(acc):
+    """missing values other than None / float NaN inside plain containers, and the empty string (an ordinary element)"""
+    import datetime
+    import decimal
+    import numpy as np
+    import pandas as pd
+    import pyrepseq
+    acc.cls("exotic-missing-values-and-empty-string")
+    miss = {"float32-nan": np.float32("nan"), "float16-nan": np.float16("nan"), "NaT": pd.NaT, "datetime64-NaT": np.datetime64("NaT"), "pd.NA": pd.NA, "Decimal-NaN": decimal.Decimal("NaN")}
+    for mname, mv in miss.items():
+        for box in (list, tuple, lambda v: pd.Series(v, dtype=object)):
+            A, B = box(["a", "b", mv]), box(["a", "b", "c", "d"])
+            for fn, e in (("overlap", 2), ("overlap_coefficient", 1.0)):
+                for x, y in ((A, B), (B, A)):
+                    r = acc.call(getattr(pyrepseq, fn), x, y)
+                    if raised(r) or not feq(r, e):
+                        acc.fail("%s/exotic-missing-value/%s" % (fn, "raised" if raised(r) else "value"), ("exotic", mname), e, r, note="container %s" % type(A).__name__)
+                        return
+    for box in (list, set, tuple, lambda v: pd.Series(v, dtype=object), lambda v: pd.Series(v)):
+        for boxb in (list, lambda v: pd.Series(v)):
+            A, B = box(["", "a", "b"]), boxb(["", "a", "c", "d"])
+            for fn, e in (("overlap", 2), ("overlap_coefficient", 2 / 3), ("jaccard_index", 2 / 5)):
+                for x, y in ((A, B), (B, A)):
+                    r = acc.call(getattr(pyrepseq, fn), x, y)
+                    if raised(r) or not feq(r, e):
+                        acc.fail("%s/empty-string-element/%s" % (fn, "raised" if raised(r) else "value"), ("exotic", "empty-string"), e, r, note="containers %s, %s" % (type(A).__name__, type(B).__name__))
+                        return
+    acc.ok(("exotic",), nontrivial=True)
 
 
 def _check_overlap(acc, a, b, only=None):
